@@ -1370,7 +1370,7 @@ def run_alias_cfg(ctx, cfg):
                                   {"kind": "alias", "cfg": cfg}, expected="indices in range",
                                   observed=[int(b.min()), int(b.max())])
                     break
-    ctx.outcome(("alias", name, bname, form, bool(selk)))
+    ctx.outcome(("alias", tag))
 
 
 FLAV_Q = ["f64", "f32", "f32F", "f64F", "f32strided", "f32T", "f32ro", "f64ro", "i64", "i32", "list"]
